@@ -168,6 +168,68 @@ fn zero_read(rt: &Runtime) -> IdleRead {
     }
 }
 
+/// public `Runtime` methods that talk to the driver without being a poll: none of them may consume a pending
+/// notification (seed C03-4b made `unregister_*` call `driver.flush()` and drop the result). Results are ignored
+/// (the polling driver answers Unsupported), the output line is always `ok`.
+const APIS: &[&str] = &["regpers", "regfiles", "bufpool", "timeout", "inline"];
+/// for the deterministic programs: without `inline`, whose completion is an event of its own (it ends a wait, makes the
+/// descriptors readable, and on the polling driver comes from the thread pool through the driver waker)
+const APIS_DET: &[&str] = &["regpers", "regfiles", "bufpool", "timeout"];
+
+struct ApiState {
+    personalities: Vec<u16>,
+    files_registered: bool,
+    keep: Vec<IdleRead>,
+    devnull: Option<std::fs::File>,
+}
+
+impl ApiState {
+    fn new() -> ApiState {
+        ApiState { personalities: vec![], files_registered: false, keep: vec![], devnull: None }
+    }
+}
+
+/// must be called inside `rt.enter`
+fn call_api(rt: &Runtime, name: &str, st: &mut ApiState) -> bool {
+    match name {
+        // register + unregister a personality (io_uring_register, no SQE)
+        "regpers" => {
+            if let Ok(p) = rt.register_personality() {
+                st.personalities.push(p);
+            }
+            if let Some(p) = st.personalities.pop() {
+                let _ = rt.unregister_personality(p);
+            }
+        }
+        // register + unregister a fixed-file table
+        "regfiles" => {
+            let f = st.devnull.get_or_insert_with(|| std::fs::File::open("/dev/null").expect("/dev/null"));
+            if rt.register_files(&[f.as_raw_fd()]).is_ok() {
+                st.files_registered = true;
+            }
+            let _ = rt.unregister_files();
+            st.files_registered = false;
+        }
+        // create (first time) / fetch the buffer pool
+        "bufpool" => {
+            let _ = rt.buffer_pool();
+        }
+        "timeout" => {
+            let _ = rt.current_timeout();
+        }
+        // an operation that completes at submission
+        "inline" => {
+            let w = Waker::noop();
+            let mut cx = Context::from_waker(&w);
+            let mut r = zero_read(rt);
+            let _ = r.fut.as_mut().poll(&mut cx);
+            st.keep.push(r);
+        }
+        _ => return false,
+    }
+    true
+}
+
 fn drv_of(s: &str) -> Option<DriverType> {
     match s {
         "iour" => Some(DriverType::IoUring),
@@ -307,6 +369,7 @@ struct Det {
     // poll must return at once
     owed_flag: bool,
     pushes_since_wake: usize,
+    api: ApiState,
 }
 
 impl Det {
@@ -327,7 +390,7 @@ impl Det {
         }
         w.log.lock().unwrap().clear();
         let main_waker = b.rt.waker();
-        Ok(Det { b, w, n, main_waker, helpers: vec![], legit: true, owed: false, flushed: false, reported: false, drv_name: format!("{drv:?}"), reads: vec![], owed_flag: false, pushes_since_wake: 0 })
+        Ok(Det { b, w, n, main_waker, helpers: vec![], legit: true, owed: false, flushed: false, reported: false, drv_name: format!("{drv:?}"), reads: vec![], owed_flag: false, pushes_since_wake: 0, api: ApiState::new() })
     }
 
     fn task_waker(&self, t: usize) -> Option<Waker> {
@@ -339,7 +402,11 @@ impl Det {
 
     fn finish(mut self) {
         let reads = std::mem::take(&mut self.reads);
-        self.b.rt.enter(|| drop(reads));
+        let keep = std::mem::take(&mut self.api.keep);
+        self.b.rt.enter(|| {
+            drop(reads);
+            drop(keep);
+        });
         // let spinning helper threads finish: drain the queue until they are done
         let t0 = Instant::now();
         while self.helpers.iter().any(|h| !h.is_finished()) && t0.elapsed() < Duration::from_secs(5) {
@@ -371,6 +438,17 @@ fn det_op(d: &mut Det, line: &str, ex: &mut Exec) -> String {
                 }
             });
             d.pushes_since_wake += k;
+            "ok".into()
+        }
+        ["api", name] => {
+            let Det { b, api, .. } = d;
+            let ok = b.rt.enter(|| call_api(&b.rt, name, api));
+            if !ok {
+                return "bad-op".into();
+            }
+            if *name == "inline" {
+                d.pushes_since_wake += 1;
+            }
             "ok".into()
         }
         ["pushz", k] => {
@@ -588,6 +666,89 @@ fn cancel_probe(drv: DriverType) -> String {
     format!(
         "probe spinning={spinning} both_returned={both_returned} future_dropped_after_50_ticks={before} polls_of_task1={polls1} dropped_after_runtime_drop={after}"
     )
+}
+
+// ---------------------------------------------------------------------------------------------
+// `turn <iour|poll> <api>`: the runtime blocks on a main future (own loop). In one of its turns another thread invokes
+// the main future's waker (joined inside the turn), then — still in the same turn — a public Runtime method is called
+// and the future returns Pending. The runtime must poll the main future again within the watchdog.
+// Output `turn ok`; judgement: `C03:lost-wake`.
+// ---------------------------------------------------------------------------------------------
+
+fn turn_case(drv: DriverType, api: &str, ex: &mut Exec) {
+    let (done_tx, done_rx) = mpsc::channel::<Result<Duration, String>>();
+    let (wk_tx, wk_rx) = mpsc::channel::<Waker>();
+    let api = api.to_string();
+    let api2 = api.clone();
+    let th = std::thread::spawn(move || {
+        let b = match build(drv, 64, 61) {
+            Ok(b) => b,
+            Err(e) => {
+                let _ = done_tx.send(Err(e));
+                return;
+            }
+        };
+        let mut st = ApiState::new();
+        let mut turn = 0u32;
+        let mut woken_at = None;
+        let (ack_tx, ack_rx) = mpsc::channel::<()>();
+        let finished = Arc::new(AtomicBool::new(false));
+        let fin2 = finished.clone();
+        // the helper of this turn: wakes when it gets the waker, acknowledges, later rescues
+        let helper = std::thread::spawn(move || {
+            let Ok(w) = wk_rx.recv_timeout(Duration::from_secs(10)) else { return };
+            w.wake_by_ref();
+            let _ = ack_tx.send(());
+            // rescue after the watchdog so that the runtime thread can finish
+            let t0 = Instant::now();
+            while t0.elapsed() < Duration::from_millis(1500) {
+                if fin2.load(SeqCst) {
+                    return;
+                }
+                std::thread::sleep(Duration::from_millis(2));
+            }
+            w.wake();
+        });
+        let lat = b.rt.block_on(std::future::poll_fn(|cx| {
+            turn += 1;
+            match turn {
+                1..=3 => {
+                    cx.waker().wake_by_ref();
+                    Poll::Pending
+                }
+                4 => {
+                    let _ = wk_tx.send(cx.waker().clone());
+                    let _ = ack_rx.recv_timeout(Duration::from_secs(10));
+                    woken_at = Some(Instant::now());
+                    Runtime::with_current(|r| call_api(r, &api2, &mut st));
+                    Poll::Pending
+                }
+                _ => Poll::Ready(woken_at.map(|t: Instant| t.elapsed()).unwrap_or_default()),
+            }
+        }));
+        finished.store(true, SeqCst);
+        let keep = std::mem::take(&mut st.keep);
+        b.rt.enter(|| drop(keep));
+        let _ = done_tx.send(Ok(lat));
+        let _ = helper.join();
+    });
+    match done_rx.recv_timeout(Duration::from_secs(15)) {
+        Ok(Ok(lat)) => {
+            if lat > Duration::from_millis(1000) {
+                ex.fail(
+                    "C03:lost-wake",
+                    format!("main future woken from another thread during a turn that then called `{api}` and returned Pending: next poll only after {lat:?} (rescued by the second wake) on {drv:?}"),
+                );
+            }
+            let _ = th.join();
+        }
+        Ok(Err(e)) => {
+            ex.tag(format!("turn:skipped:{e}"));
+            let _ = th.join();
+        }
+        Err(_) => ex.fail("C03:lost-wake", format!("turn with `{api}` on {drv:?}: the runtime never came back")),
+    }
+    ex.tag(format!("turn:{api}"));
 }
 
 // ---------------------------------------------------------------------------------------------
@@ -961,6 +1122,14 @@ fn exec(case: &Case) -> Exec {
                 }
                 None => "bad-op".to_string(),
             },
+            Some("turn") if toks.len() == 3 => match drv_of(toks[1]) {
+                Some(d) if toks[2] == "none" || APIS.contains(&toks[2]) => {
+                    turn_case(d, toks[2], &mut ex);
+                    ex.nontrivial = true;
+                    "turn ok".to_string()
+                }
+                _ => "bad-op".to_string(),
+            },
             Some("stress") => {
                 match parse_stress(&toks) {
                     Some(cfg) => {
@@ -1005,8 +1174,10 @@ fn gen_det(rng: &mut Rng, name: String) -> Case {
     let mut notified = false;
     let mut timed = 0;
     for _ in 0..n {
-        let r = rng.below(108);
-        let op = if r >= 100 {
+        let r = rng.below(112);
+        let op = if r >= 106 {
+            format!("api {}", rng.pick(APIS_DET))
+        } else if r >= 100 {
             format!("push {}", rng.range(1, 7))
         } else if r < 3 && notified && timed < 2 {
             notified = false;
@@ -1141,6 +1312,32 @@ fn generate(tier: &str, rng: &mut Rng) -> Vec<Case> {
             }
         }
         cases.push(Case { name: format!("cqfull-{i}"), lines });
+    }
+    // wake-consuming sites (seed C03-4b): after a wake, a public Runtime method that is not a poll, then the runtime
+    // parks / flushes: the notification must still be there. Deterministic programs (flag oracle) ...
+    for drv in ["iour", "poll"] {
+        for api in APIS_DET {
+            for tail in [&["pollt 300"][..], &["flush", "fd"][..], &["push 1", "pollt 300"][..]] {
+                let mut lines = vec![format!("new {drv} q=64 iv=61 tasks=1 cap=16")];
+                lines.push("poll0".into());
+                if rng.chance(1, 2) {
+                    lines.push("run".into());
+                }
+                lines.push(if rng.chance(1, 2) { "wakex".into() } else { "wake".into() });
+                lines.push(format!("api {api}"));
+                if rng.chance(1, 3) {
+                    lines.push(format!("api {}", rng.pick(APIS_DET)));
+                }
+                lines.extend(tail.iter().map(|s| s.to_string()));
+                cases.push(Case { name: format!("api-{drv}-{api}-{}", tail.len() + tail[0].len()), lines });
+            }
+        }
+    }
+    // ... and the same inside a turn of the main future of a runtime blocked in its own loop
+    for drv in ["iour", "poll"] {
+        for api in std::iter::once(&"none").chain(APIS.iter()) {
+            cases.push(Case { name: format!("turn-{drv}-{api}"), lines: vec![format!("turn {drv} {api}")] });
+        }
     }
     let n_det = if thorough { 20_000 } else { 1_500 };
     for i in 0..n_det {
